@@ -17,23 +17,197 @@ COMMON_NOTE = (
 )
 
 # property -> claim
+ASYNC = ("the tokio task itself (tokio::select!, mpsc::recv, timers) cannot be compiled by Kani 0.68 (ICE on thread-locals) "
+         "or executed (no runtime)")
 CLAIMS = {
+    "C01": {
+        "text": "Bounded model checking of the real server path Request::parse -> Request::get_reply -> FrameWriter "
+                "(MBAP and RTU) against a reference Modbus server written from the protocol document: byte-exact reply "
+                "(tx/unit echo, length, LSB-first bits, big-endian registers, echoed writes, handler-raised exception), "
+                "request validity for EVERY payload of 0..252 bytes (lengths, ranges, coil values, 2000/125/1968/123 limits), "
+                "the 256-entry function-code table and all exception frames. Reply construction is bounded by quantity "
+                "(<=16 bits, <=6 registers, <=2 data bytes of coils, <=3 written registers in the quick tier). The writer "
+                "buffer is arbitrary residue, so each query is one step from an arbitrary writer state (sequences). "
+                "Whole-session behaviour (one reply per addressed request, silence otherwise) is decided by the glue "
+                "harnesses that execute SessionTask::handle_frame whole with MAX_ADU_LENGTH=13 (hook H3).",
+        "note": "Not decided: live TCP/pty sessions; larger quantities than the stated bounds (the limits themselves are "
+                "decided for all payload sizes by the parse-validity queries). Byte-count field of write-multiple requests "
+                "is a don't-care when the payload length is right (the property lists 'wrong length for its quantity').",
+        "design": "DESIGN.md 5.1",
+    },
+    "C02": {
+        "text": "Same kernel and glue queries as C01 with an instrumented handler: a read queries exactly start, start+1, .. "
+                "in order, once each, stopping at the first exception; a write invokes the matching write handler exactly "
+                "once with the decoded range/index and values (symbolic probe of every item of the lazy iterator); "
+                "rejected, unknown-function, empty, wrong-unit and denied requests invoke nothing.",
+        "note": "Bounds as C01. Handler functions are modelled as deterministic symbolic tables that do not panic.",
+        "design": "DESIGN.md 5.2",
+    },
+    "C03": {
+        "text": "AddressRange::try_from for all 2^32 arguments, read limits for all counts, and FrameWriter::format_request "
+                "for all eight request kinds (MBAP and RTU) against a reference encoder: tx id, protocol id, length, unit, "
+                "function, big-endian fields, LSB-first coil packing, byte count, CRC. Write-multiple limits and the "
+                "maximum frame size are decided at the boundary counts with concrete-valued vectors (123/124 registers in "
+                "the quick tier; 1968/1969 coils need ~250x8 loop iterations and run in the thorough tier).",
+        "note": "'Rejected => nothing transmitted' is decided where bytes are produced: format_request returns Err instead "
+                "of a frame and execute_request only writes what it returned; the task-level statement is async (" + ASYNC + "). "
+                "Vector lengths other than the boundary points and 1/3/9/17 values are outside.",
+        "design": "DESIGN.md 5.3",
+    },
+    "C04": {
+        "text": "client::message::Request::handle_response for all eight request kinds with a symbolic reply PDU: success iff "
+                "function code, exact length and (for writes) echo match; returned values are the reply's bits/registers "
+                "indexed from the start address (symbolic probe of every item); [fc|0x80, code] yields exactly "
+                "Exception(code) for all 256 codes; every other reply is a non-exception error; the promise is completed "
+                "exactly once. Callback and oneshot (future-style) promise flavours.",
+        "note": "Bounds: <=9 bits / <=2 registers and replies of <=4/6 bytes in the quick tier (24 bits / 4 registers thorough); "
+                "oneshot flavour with 2 items (a symbolic-length Vec exhausts memory). Byte-count field of read replies is a "
+                "don't-care (the property states 'exactly the length implied by the request').",
+        "design": "DESIGN.md 5.4",
+    },
+    "C05": {
+        "text": "MbapParser::parse from an ARBITRARY ReadBuffer state (any offset in the 260-byte array, arbitrary residue) "
+                "for every stream of <=12 bytes and every split point of its delivery, against a reference framer: need-more / "
+                "error (protocol id, length 0, length > 254) / frame with exact consumption; the 254/255 boundary with a full "
+                "260-byte buffer; ReadBuffer::read_some as one step from an arbitrary state over the in-memory transport "
+                "(content preserved in order, compaction at the end of the array, progress); and FramedReader::next_frame end "
+                "to end where EVERY read returns a solver-chosen chunk size (segmentation independence within 10 bytes).",
+        "note": "The parser step and the read step are inductive (arbitrary state); the end-to-end query ties them together "
+                "within its bound. TLS delivers the same byte stream through the same reader and is outside.",
+        "design": "DESIGN.md 5.5",
+    },
+    "C06": {
+        "text": "CRC: the crc crate's table step equals the bit-wise CRC-16/MODBUS step for all 2^24 (state, byte) pairs "
+                "(covers every frame length by induction); rodbus's CRC constant, init value and both code paths (checksum on "
+                "transmit, digest/update on receive) equal the fold of that step. Transmit: every reply/request frame built by "
+                "the C01/C03 queries over FrameWriter::rtu() ends with that CRC, low byte first. Receive: RtuParser::parse on "
+                "symbolic streams from an arbitrary buffer state accepts iff length rule and CRC hold, never acts on a partial "
+                "or corrupted frame, maps address 0 to broadcast, and gives the same result for every split of the delivery. "
+                "Thorough: corruption by 1 bit, 2 bits or a <=16-bit burst of any valid 8-byte frame is never accepted (real "
+                "parser), and the generator-polynomial lemma for all distances within 256 bytes.",
+        "note": "Frame sizes: <=10-byte streams quick, 13 thorough. The 256-byte limit on transmit is decided by C03's limit "
+                "queries. Serial driver outside.",
+        "design": "DESIGN.md 5.6",
+    },
+    "C07": {
+        "text": "Kani's built-in checks (arithmetic overflow with dev-profile semantics, out-of-bounds, unwrap/expect, "
+                "unreachable, division by zero) over every query whose input is peer-controlled bytes (all C01-C06 kernels, "
+                "the glue harnesses, the iterators from every validated state). A failing built-in check inside repository "
+                "code in any of those queries is attributed to C07.",
+        "note": "Not decided: 'the task and its other sessions remain usable' and shutdown responsiveness (" + ASYNC + "). "
+                "Display/Loggable bodies behind tracing macros are not executed (tracing is a no-op shim in solver runs).",
+        "design": "DESIGN.md 5.7",
+    },
+    "C08": {
+        "text": "AuthorizationType::is_authorized / check_authorization for all eight request kinds x every unit/range/index x "
+                "all 256 allow/deny policies: exactly one callback, of the request's own kind, with its unit id, range/index "
+                "and the session role; answer returned unchanged; no handler => Allow without a callback. "
+                "ReadOnlyAuthorizationHandler and the trait's default-deny for all arguments. Glue (handle_frame whole): deny => "
+                "zero point-handler calls and exception 01; allow => as without authorization; two consecutive requests on one "
+                "session with opposite decisions (no carry-over).",
+        "note": "Role extraction from the certificate is C09 territory (outside). Glue runs with MAX_ADU_LENGTH=13 (hook H3) "
+                "and write-single-register requests.",
+        "design": "DESIGN.md 5.8",
+    },
+    "C09": {
+        "text": "From<MinTlsVersion> for ProtocolVersions, exhaustively: minimum 1.2 enables {1.2, 1.3}, minimum 1.3 enables "
+                "{1.3} only.",
+        "note": "ONLY the version table. Handshake acceptance, certificate modes, validity periods, role extension and 'no "
+                "Modbus byte before the handshake succeeds' depend on rustls/webpki/ring/rx509 and sockets: not encodable.",
+        "design": "DESIGN.md 5.9",
+    },
+    "C10": {
+        "text": "Exactly-once completion of the five promise types under every sequence of <=3 success/failure attempts "
+                "followed by drop (first wins, none => Shutdown); handle_response never completes a request it rejects and the "
+                "caller's single fail() completes it once with the error that occurred (all eight kinds, from the C04 "
+                "queries); oneshot flavour; send/recv errors on a dead task map to Shutdown; which errors end a session.",
+        "note": "NOT decided: interleavings of replies, deadlines, enable/disable, shutdown, handle drops and task abort (" + ASYNC + ").",
+        "design": "DESIGN.md 5.10",
+    },
     "C11": {
-        "text": "Bounded model checking (Kani/CBMC) of the real `TxId::next` from an ARBITRARY state: returns the old "
-                "value, advances by one modulo 2^16, consecutive ids differ. Because the step is checked from every "
-                "state it is an inductive argument covering any number of requests including the wrap after 65535. "
-                "Transaction-id placement in the MBAP header is decided by the C03 encoders.",
-        "note": "Decides id generation/stamping only. NOT decided: the discard-on-mismatch receive loop and the "
-                "idle-state reader (ClientLoop::execute_request/poll use tokio::select!, mpsc::recv and timers which "
-                "Kani 0.68 cannot compile (ICE on thread-locals) or execute (no runtime))." + COMMON_NOTE,
+        "text": "TxId::next from an ARBITRARY state: returns the old value, advances by one modulo 2^16, consecutive ids "
+                "differ (inductive: any number of requests incl. the wrap). The C03 encoders decide that the id is stamped "
+                "big-endian at offset 0 of every MBAP request.",
+        "note": "NOT decided: the discard-on-mismatch receive loop and the idle-state reader (" + ASYNC + ").",
         "design": "DESIGN.md 5.11",
     },
+    "C12": {
+        "text": "TimeoutCounter: every outcome script of length 6 (12 thorough) for N in 1..4 (8) or none: MaxTimeouts(N) at "
+                "exactly the N-th consecutive timeout, any other outcome restarts the count, no limit never drops; one step "
+                "from an arbitrary (current, max) state incl. saturation; SessionError::from_request_err (timeouts, exceptions "
+                "and bad replies leave the connection usable).",
+        "note": "NOT decided: deadline exactness and which request outcomes feed the counter (run_one_request after select!: " + ASYNC + ").",
+        "design": "DESIGN.md 5.12",
+    },
+    "C14": {
+        "text": "doubling_retry_strategy through Box<dyn RetryStrategy>: every call script of length 5 (10 thorough) over "
+                "{failed connect, disconnect, reset} with symbolic whole-second min <= max: k-th consecutive failure waits "
+                "min(min*2^(k-1), max), disconnect waits min, reset restarts; one doubling step from an arbitrary state over "
+                "the full u64-second range (no overflow).",
+        "note": "Assumes the documented precondition min <= max. Sub-second durations outside (div by 10^9 does not terminate "
+                "in the bit-blaster). Use of the strategy by the client / RTU-server tasks is async: outside.",
+        "design": "DESIGN.md 5.14",
+    },
+    "C16": {
+        "text": "WildcardIPv4::matches for all patterns x all 2^32 IPv4 and all IPv6 addresses; AddressFilter::matches for "
+                "Any / Exact / WildcardIpv4; get_byte (one field of the wildcard parser) for all ASCII strings of <=4 bytes "
+                "against a reference of '*' or u8::from_str syntax.",
+        "note": "NOT decided: the split/arity logic of from_str on whole strings, AnyOf(HashSet), that the accept loop consults "
+                "the filter before TLS/Modbus in every variant and that every constructor forwards it (async constructors; "
+                "observation O1 in DESIGN.md).",
+        "design": "DESIGN.md 5.16",
+    },
+    "C17": {
+        "text": "SessionTask::handle_frame executed WHOLE over the in-memory transport (MAX_ADU_LENGTH=13, hook H3): for every "
+                "unit id 0..255 against a one-unit map, a valid write, a malformed request, an unsupported function and an "
+                "empty frame are answered iff addressed to the configured unit (zero bytes written otherwise); RTU broadcast "
+                "writes reach every unit of a two-unit map exactly once and nothing is ever transmitted; broadcast reads, "
+                "malformed and unsupported broadcasts are ignored. RtuParser maps address 0 to Broadcast (C06 queries).",
+        "note": "Function codes are fixed per query (write single register/coil, read holding registers, five unsupported "
+                "representatives; full tables in C01). Short frames (hook H3); pty sessions outside.",
+        "design": "DESIGN.md 5.17",
+    },
+    "C18": {
+        "text": "rodbus-ffi compiled by Kani: WriteResult::convert_to_result for every value; the four RequestHandlerWrapper "
+                "write methods with an extern \"C\" callback returning a solver-chosen WriteResult (and with the callback "
+                "absent): the client receives exactly the application's result and the callback receives the index/value/"
+                "start/items sent; RequestError / ExceptionCode (all 256) / DecodeLevel (36) / AddressRange / BitValue / "
+                "RegisterValue / Authorization conversions to their same-named counterparts.",
+        "note": "NOT decided: entry points that need a live Runtime (channel creation, block_on), completion-callback "
+                "exactly-once through sfio_promise, queue-full/shutdown conditions, client state conversions.",
+        "design": "DESIGN.md 5.18",
+    },
+    "C19": {
+        "text": "The database_* functions on a real Database (HashMap with fixed SipHash keys): every script of 3 operations "
+                "over {add, update, delete, get} x four point types x two symbolic indices against a reference Option per "
+                "(type, index); then RequestHandlerWrapper::read_*: stored value, or exception 02 for absent points; one map "
+                "per point type.",
+        "note": "NOT decided: atomicity of transactions against concurrent client reads (thread schedules; Kani is "
+                "sequential). RandomState::new stubbed to fixed keys (getrandom syscall).",
+        "design": "DESIGN.md 5.19",
+    },
+    "C20": {
+        "text": "Every C01-C06 kernel and glue query takes a SYMBOLIC DecodeLevel (all 36) and is compared with a "
+                "level-independent reference, so any influence of the level on bytes, results or handler calls is a "
+                "counterexample. Frame conditions: SessionTask::apply_command(ChangeDecoding) and "
+                "ClientLoop::change_setting(DecodeLevel) change nothing but the level (enabled flag, tx id, timeout counter "
+                "untouched).",
+        "note": "tracing is a no-op shim in solver runs, so formatter bodies are not executed (they take &self). NOT decided: "
+                "that a level change never reorders an outstanding transaction and the two execution paths of "
+                "run_one_request (" + ASYNC + ").",
+        "design": "DESIGN.md 5.20",
+    },
 }
+for _c in CLAIMS.values():
+    _c["note"] = _c["note"] + COMMON_NOTE
 
 NOT_APPLICABLE = {
     "C13": "every clause is about the tokio task's state path (TcpChannelTask::run_inner/try_connect_and_run, sockets, "
            "timers, listener awaits); Kani 0.68 can neither compile (ICE on thread-locals reached by select!/recv/time) "
            "nor execute it (no runtime) and there is no synchronous kernel that carries the property",
+    "C15": "the only synchronous kernel (SessionTracker over BTreeMap<u128, mpsc::Sender>) did not finish within 30 min per "
+           "query (BTreeMap node handling + tokio channel internals); isolation between sessions and shutdown are tokio-task "
+           "properties; a claim will be added only if a tractable harness is found",
 }
 
 ALL = [f"C{n:02d}" for n in range(1, 21)]
@@ -68,8 +242,12 @@ def main():
         "enable": "set automatically by `cargo kani` (rustc --cfg kani); ordinary cargo build/test never sees hook code",
         "baseline_off_cmd": "cd /repo && cargo nextest run --workspace --no-fail-fast --test-threads 8 --offline || "
                             "(cd /repo && cargo test --workspace --no-fail-fast --offline)",
-        "source_commits": [],
+        "source_commits": ["b75eae9", "4477b38"],
         "add_only": True,
+        "notes": "H1 (b75eae9): cfg(kani) in-memory transport PhysLayerImpl::Verif + VerifIo; the three real-I/O match arms of "
+                 "PhysLayer::read/write get an added #[cfg(not(kani))] line. H2/H3 (4477b38): check-cfg lint entry; "
+                 "MAX_ADU_LENGTH = 13 under cfg(all(kani, verif_small_frames)) (an added #[cfg(not(..))] line above the "
+                 "existing constant). Harness modules are attached in a scratch copy, never in /repo.",
     }
     if os.path.exists(hooks_file):
         with open(hooks_file) as f:
